@@ -10,6 +10,6 @@ CONSTANTS
   MinFree = 16000
   PersistInvalidate = TRUE
   TolerantLoad = TRUE
-  MaxRecs = 4
+  MaxRecs = 5
 CONSTRAINT Bounded
 INVARIANTS TypeOK MapRefinement Opens Accounting
